@@ -215,7 +215,9 @@ func extractNonce(presentation vc.VerifiablePresentation) (string, error) {
 // s2sNonceKey is used in the s2sNonceStore
 var s2sNonceKey = []string{"s2s", "nonce"}
 
-// s2sNonceStore is used by the authorization server for replay prevention by keeping track of used nonces in the s2s flow
+// s2sNonceStore is used by the authorization server for replay prevention by keeping track of used nonces in the s2s flow.
+// A nonce must be remembered for as long as its presentation can be accepted after the first use: the clock skew applies at both
+// ends of the validity (a presentation created up to s2sMaxClockSkew in the future is accepted until s2sMaxClockSkew after it expires).
 func (r Wrapper) s2sNonceStore() storage.SessionStore {
-	return r.storageEngine.GetSessionDatabase().GetStore(s2sMaxPresentationValidity+s2sMaxClockSkew, s2sNonceKey...)
+	return r.storageEngine.GetSessionDatabase().GetStore(s2sMaxPresentationValidity+2*s2sMaxClockSkew, s2sNonceKey...)
 }
